@@ -431,86 +431,94 @@ def granToPos (vf : VF) (link : Nat) (gran : Int) : Int :=
   let g0 := gran - vf.pcmlengths[link * 2]!
   (if g0 < 0 then 0 else g0) + sumLen vf.pcmlengths link
 
+/-- the packet part of `_fetch_and_process_packet`: hand the queued packets to the decoder until one yields audio
+    (`some` = the call's result, `none` = the queue is empty, go and fetch a page) -/
+def fpPackets : Nat → M (Option Int)
+  | 0 => return some FUEL
+  | f' + 1 => do
+      let vf ← get
+      let (res, p, pno, os1) := vf.os.packetout
+      if res = -1 then
+        set { vf with os := os1 }
+        return some OV_HOLE
+      if res > 0 then
+        set { vf with os := os1 }
+        match packetW (curInfo vf) p, vf.vd with
+        | some w, some d =>
+            if d.pcmout ≠ 0 then return some OV_EFAULT
+            let (d1, _) := d.blockin (sizesOf vf) vf.hs { W := w, gp := p.gran, eos := p.eos, seq := pno }
+            modify fun vf => { vf with vd := some d1, lapped := false }
+            if p.gran ≠ -1 ∧ !p.eos then
+              let link : Nat := if vf.seekable then vf.current_link.toNat else 0
+              let g0 := if vf.seekable ∧ link > 0 then p.gran - vf.pcmlengths[link * 2]! else p.gran
+              let g1 := if g0 < 0 then 0 else g0
+              let g2 := g1 - shl d1.pcmout vf.hs + sumLen vf.pcmlengths link
+              modify fun vf => { vf with pcm_offset := g2 }
+            return some 1
+        | _, _ => fpPackets f'
+      else return none
+
+/-- the page part: the next page that concerns the decoder (code, page, stop) -/
+def fpPage (ph : Phys) (readp spanp : Bool) : Nat → M (Int × Page × Bool)
+  | 0 => return (FUEL, default, false)
+  | f' + 1 => do
+      if !readp then return (0, default, true)
+      let (ret, og) ← getNextPage ph (-1)
+      if ret < 0 then return (OV_EOF, default, true)
+      let vf ← get
+      if vf.ready = INITSET ∧ vf.current_serialno ≠ og.serial then
+        if og.bos then
+          if !spanp then return (OV_EOF, og, true)
+          decodeClear
+          if !vf.seekable then modify fun vf => { vf with infos := #[default] }
+          return (0, og, false)
+        else fpPage ph readp spanp f'
+      else return (0, og, false)
+
+/-- what happens to a fetched page: a handle without stream state finds the page's link (seekable) or reads the new link's headers
+    (streaming); then the page goes into the stream and the loop goes round (`again`) -/
+def fpAfterPage (ph : Phys) (again : M Int) (og : Page) : M Int := do
+  let vf ← get
+  if vf.ready ≠ INITSET ∧ vf.ready < STREAMSET then
+    if vf.seekable then
+      match linkOf vf og.serial with
+      | none => again
+      | some link =>
+          modify fun vf => { vf with current_serialno := og.serial, current_link := link,
+                                     os := (vf.os.resetSerial og.serial).pagein og, ready := STREAMSET }
+          again
+    else
+      let (r, _) ← fetchHeaders ph (some og)
+      if r ≠ 0 then return r
+      modify fun vf => { vf with ready := STREAMSET, infos := #[infoOf ph vf.hdrkey],
+                                 hs := if vf.hs = 1 ∧ (infoOf ph vf.hdrkey).bs0 > 64 then 1 else 0,
+                                 current_serialno := vf.os.serial, current_link := vf.current_link + 1 }
+      -- (the page in hand went into the stream inside _fetch_headers: `continue`, not a second pagein)
+      again
+  else
+    modify fun vf => { vf with os := vf.os.pagein og }
+    again
+
+def fpPageStep (ph : Phys) (readp spanp : Bool) (again : M Int) : M Int := do
+  let vf ← get
+  if vf.ready < OPENED then return OV_EFAULT      -- (not reachable through the API)
+  let (rc, og, stop) ← fpPage ph readp spanp (ph.pages.size + 1)
+  if stop ∨ rc ≠ 0 then return rc
+  fpAfterPage ph again og
+
 /-- `_fetch_and_process_packet(vf,NULL,readp,spanp)` -/
 def fetchAndProcess (ph : Phys) (readp spanp : Bool) : Nat → M Int
   | 0 => return FUEL
   | fuel + 1 => do
       let vf ← get
-      if vf.ready = STREAMSET then
-        let r ← makeDecodeReady
-        if r < 0 then return r
+      let r0 ← (if vf.ready = STREAMSET then makeDecodeReady else pure 0)
+      if r0 < 0 then return r0
       -- process a packet if we can
-      let rec packets (f : Nat) : M (Option Int) :=
-        match f with
-        | 0 => return some FUEL
-        | f' + 1 => do
-            let vf ← get
-            let (res, p, pno, os1) := vf.os.packetout
-            if res = -1 then
-              set { vf with os := os1 }
-              return some OV_HOLE
-            if res > 0 then
-              set { vf with os := os1 }
-              match packetW (curInfo vf) p, vf.vd with
-              | some w, some d =>
-                  if d.pcmout ≠ 0 then return some OV_EFAULT
-                  let (d1, _) := d.blockin (sizesOf vf) vf.hs { W := w, gp := p.gran, eos := p.eos, seq := pno }
-                  modify fun vf => { vf with vd := some d1, lapped := false }
-                  if p.gran ≠ -1 ∧ !p.eos then
-                    let link : Nat := if vf.seekable then vf.current_link.toNat else 0
-                    let g0 := if vf.seekable ∧ link > 0 then p.gran - vf.pcmlengths[link * 2]! else p.gran
-                    let g1 := if g0 < 0 then 0 else g0
-                    let g2 := g1 - shl d1.pcmout vf.hs + sumLen vf.pcmlengths link
-                    modify fun vf => { vf with pcm_offset := g2 }
-                  return some 1
-              | _, _ => packets f'
-            else return none
       let vf ← get
-      if vf.ready = INITSET then
-        match ← packets (vf.os.q.length + 1) with
-        | some r => return r
-        | none => pure ()
-      let vf ← get
-      if vf.ready < OPENED then return OV_EFAULT      -- (not reachable through the API)
-      -- fetch a page
-      let rec page (f : Nat) : M (Int × Page × Bool) :=
-        match f with
-        | 0 => return (FUEL, default, false)
-        | f' + 1 => do
-            if !readp then return (0, default, true)
-            let (ret, og) ← getNextPage ph (-1)
-            if ret < 0 then return (OV_EOF, default, true)
-            let vf ← get
-            if vf.ready = INITSET ∧ vf.current_serialno ≠ og.serial then
-              if og.bos then
-                if !spanp then return (OV_EOF, og, true)
-                decodeClear
-                if !vf.seekable then modify fun vf => { vf with infos := #[default] }
-                return (0, og, false)
-              else page f'
-            else return (0, og, false)
-      let (rc, og, stop) ← page (ph.pages.size + 1)
-      if stop ∨ rc ≠ 0 then return rc
-      let vf ← get
-      if vf.ready ≠ INITSET ∧ vf.ready < STREAMSET then
-        if vf.seekable then
-          match linkOf vf og.serial with
-          | none => fetchAndProcess ph readp spanp fuel
-          | some link =>
-              modify fun vf => { vf with current_serialno := og.serial, current_link := link,
-                                         os := (vf.os.resetSerial og.serial).pagein og, ready := STREAMSET }
-              fetchAndProcess ph readp spanp fuel
-        else
-          let (r, _) ← fetchHeaders ph (some og)
-          if r ≠ 0 then return r
-          modify fun vf => { vf with ready := STREAMSET, infos := #[infoOf ph vf.hdrkey],
-                                     hs := if vf.hs = 1 ∧ (infoOf ph vf.hdrkey).bs0 > 64 then 1 else 0,
-                                     current_serialno := vf.os.serial, current_link := vf.current_link + 1 }
-          -- (the page in hand went into the stream inside _fetch_headers: `continue`, not a second pagein)
-          fetchAndProcess ph readp spanp fuel
-      else
-        modify fun vf => { vf with os := vf.os.pagein og }
-        fetchAndProcess ph readp spanp fuel
+      let pr ← (if vf.ready = INITSET then fpPackets (vf.os.q.length + 1) else pure none)
+      match pr with
+      | some r => return r
+      | none => fpPageStep ph readp spanp (fetchAndProcess ph readp spanp fuel)
 
 /-- pages plus packets: a bound on every loop that consumes one of either per round -/
 def Phys.work (ph : Phys) : Nat := 2 * ph.pages.size + ph.pages.foldl (fun a p => a + p.pk.length) 0 + 16
@@ -849,7 +857,7 @@ def pcmSeekTail (ph : Phys) (pos : Int) : M Int := do
           if r < 0 ∧ r ≠ OV_HOLE then return 0      -- (packetpeek yields only 1, 0, -1: never taken)
           let (pr, og) ← getNextPage ph (-1)
           if pr < 0 then return 0
-          if og.bos then decodeClear
+          (if og.bos then decodeClear else pure ())
           let vf ← get
           if vf.ready < STREAMSET then
             match linkOf vf og.serial with
